@@ -83,6 +83,13 @@ def main():
             print(f"INTERNAL: Lean step failed: {proof['fatal']}")
             return 2
     ctx.proof = proof
+    tie2 = (proof or {}).get("translator_tie") or {}
+    if tie2.get("status") in ("broken", "translator-failed"):
+        print(f"NOTE: translator tie not checked ({tie2.get('status')}): {str(tie2.get('detail'))[:300]}")
+    elif tie2.get("status") == "checked":
+        changed_units = [k for k, v in tie2.get("units", {}).items() if v != "translated"]
+        ctx.notes.append(f"translator tie checked: {len(tie2.get('theorems', []))} tie theorems against the fresh translation of "
+                         f"{len(tie2.get('units', {}))} units ({len(changed_units)} not translatable)")
 
     # 2+3. correspondence and direct oracle pass -----------------------------------------
     crlib.start_coverage()
@@ -172,7 +179,11 @@ def main():
     # here): the code upstream of this property changed, so its own oracle looks harder before it says "holds"
     upstream = sum(v for k, v in ctx.dist.items() if k.startswith("upstream_stage_differs_not_this_property"))
     ctx.extra["upstream_stage_disagreements"] = upstream
-    search = bool(broken) or upstream > 0
+    # the second tie (translation == model) no longer checks: not a violation by itself (the correspondence is the
+    # deciding tie), but the code changed in a way the proofs do not follow, so the oracle looks harder
+    tie_broken = tie2.get("status") in ("broken", "translator-failed")
+    ctx.extra["translator_tie_status"] = tie2.get("status")
+    search = bool(broken) or upstream > 0 or tie_broken
 
     # 4. failing-input search when a proof obligation or the correspondence broke ---------
     if search and not ctx.violations and not ctx.extra.get("stopped_on_time_limits"):
